@@ -110,7 +110,64 @@ def make_frames(case):
     for i, c in nan_cells:
         cur[c] = cur[c].astype(float)
         cur.loc[i, c] = np.nan
+    if case.get("versions") is not None:
+        cur["last_modified"] = "2024-11-05T21:00:00-05:00"  # the feed's own time stamp column (as in the stored versions)
     return pre, cur
+
+
+def versions_frame(case):
+    """Earlier versions of the feed (case['versions']: rows id, pev, rd, rg, ro, minute) as the stored results file
+    would hold them."""
+    st_of = {u["id"]: u["st"] for u in case["units"]}
+    rows = [
+        {
+            "postal_code": st_of[v["id"]],
+            "geographic_unit_fips": v["id"],
+            "percent_expected_vote": float(v["pev"]),
+            "results_dem": v["rd"],
+            "results_gop": v["rg"],
+            "results_turnout": v["rd"] + v["rg"] + v["ro"],
+            "last_modified": pd.Timestamp("2024-11-05 19:00:00") + pd.Timedelta(minutes=int(v["minute"])),
+        }
+        for v in case["versions"]
+    ]
+    return pd.DataFrame(rows, columns=["postal_code", "geographic_unit_fips", "percent_expected_vote", "results_dem", "results_gop", "results_turnout", "last_modified"])
+
+
+class _versions_patch:
+    """While active, the client's VersionedDataHandler reads the version history from the case instead of S3
+    (everything after the read - estimands, sorting, the margin estimates - is the real handler)."""
+
+    def __init__(self, case):
+        self.case = case
+
+    def __enter__(self):
+        import elexmodel.client as cm
+        from elexmodel.handlers.data.Estimandizer import Estimandizer
+        from elexmodel.handlers.data.VersionedData import VersionedDataHandler
+
+        frame = versions_frame(self.case)
+
+        class InMemoryVersions(VersionedDataHandler):
+            def __init__(self, election_id, office_id, geographic_unit_type, estimands=["margin"], start_date=None, end_date=None, sample=2, tzinfo="America/New_York"):
+                self.election_id, self.office_id, self.geographic_unit_type = election_id, office_id, geographic_unit_type
+                self.estimands, self.start_date, self.end_date, self.sample, self.tz = estimands, start_date, end_date, sample, tzinfo
+
+            def get_versioned_results(self, filepath=None):
+                if frame.empty:
+                    self.data = None
+                    return None
+                data, _ = Estimandizer().add_estimand_results(frame.copy(), self.estimands, False)
+                self.data = data.sort_values("last_modified")
+                return self.data
+
+        self.cm, self.old = cm, cm.VersionedDataHandler
+        cm.VersionedDataHandler = InMemoryVersions
+        return self
+
+    def __exit__(self, *a):
+        self.cm.VersionedDataHandler = self.old
+        return False
 
 
 def request_kwargs(case):
@@ -145,6 +202,14 @@ def run_case(case, client=None, frames=None, keep_client=True):
         client = ModelClient()
     r.client = client if keep_client else None
     pre, cur = frames if frames is not None else make_frames(case)
+    req = case["req"]
+    if case.get("versions") is not None:
+        with _versions_patch(case):
+            return _run(case, client, r, pre, cur)
+    return _run(case, client, r, pre, cur)
+
+
+def _run(case, client, r, pre, cur):
     req = case["req"]
     try:
         res = client.get_estimates(
